@@ -87,6 +87,66 @@ impl Drop for LockScope {
     }
 }
 
+/// Stand-in for `std::sync::RwLock` where a lock can be held across a schedule point (the model
+/// lock of `Core`, held while the app's `update` and `view` run).
+///
+/// Without a controller on the calling thread it *is* the std lock. With one, a blocking
+/// acquisition that would have to wait hands control to the controller instead (schedule point
+/// `rwlock.contended`) and tries again when the thread is resumed, so that a simulated thread
+/// never sleeps in the kernel while it holds the simulator's baton. `try_read` / `try_write`
+/// are the std operations unchanged: they fail exactly when another (possibly parked) thread
+/// holds the lock.
+#[derive(Debug, Default)]
+pub struct RwLock<T>(std::sync::RwLock<T>);
+
+impl<T> RwLock<T> {
+    pub fn new(value: T) -> Self {
+        Self(std::sync::RwLock::new(value))
+    }
+
+    /// # Errors
+    /// As `std::sync::RwLock::read`.
+    pub fn read(&self) -> std::sync::LockResult<std::sync::RwLockReadGuard<'_, T>> {
+        loop {
+            match self.0.try_read() {
+                Ok(guard) => return Ok(guard),
+                Err(std::sync::TryLockError::Poisoned(e)) => return Err(e),
+                Err(std::sync::TryLockError::WouldBlock) => match current() {
+                    Some(c) => c.point("rwlock.contended"),
+                    None => return self.0.read(),
+                },
+            }
+        }
+    }
+
+    /// # Errors
+    /// As `std::sync::RwLock::write`.
+    pub fn write(&self) -> std::sync::LockResult<std::sync::RwLockWriteGuard<'_, T>> {
+        loop {
+            match self.0.try_write() {
+                Ok(guard) => return Ok(guard),
+                Err(std::sync::TryLockError::Poisoned(e)) => return Err(e),
+                Err(std::sync::TryLockError::WouldBlock) => match current() {
+                    Some(c) => c.point("rwlock.contended"),
+                    None => return self.0.write(),
+                },
+            }
+        }
+    }
+
+    /// # Errors
+    /// As `std::sync::RwLock::try_read`.
+    pub fn try_read(&self) -> std::sync::TryLockResult<std::sync::RwLockReadGuard<'_, T>> {
+        self.0.try_read()
+    }
+
+    /// # Errors
+    /// As `std::sync::RwLock::try_write`.
+    pub fn try_write(&self) -> std::sync::TryLockResult<std::sync::RwLockWriteGuard<'_, T>> {
+        self.0.try_write()
+    }
+}
+
 /// Read-only snapshot of a `Core`'s runtime queues.
 #[derive(Debug, Clone, Copy, PartialEq, Eq, Default)]
 pub struct CoreStats {
